@@ -1,6 +1,7 @@
 package rules
 
 import (
+	"fmt"
 	"go/token"
 	"go/types"
 	"math"
@@ -57,6 +58,7 @@ func c16(c *Ctx) {
 	c.uidSetsSkipMissing("R16.8")
 	c.uidDispatchInRange("R16.9")
 	c.setsAreOnlyInterpretedByTheResolvers("R16.10")
+	c.parserDoesNotComputeWithSeqNums("R16.11")
 
 	// ---- R16.1b / R16.3 conversions ---------------------------------------------------
 	convs, narrow := 0, 0
@@ -1273,4 +1275,30 @@ func (c *Ctx) setsAreOnlyInterpretedByTheResolvers(rule string) {
 		R.Check(ok, rule, c.name(c.ownerFn(f))+"|reads SeqRange bounds", reads, "a resolver function", "the bounds of a client's message set are inspected outside the resolvers ("+reads+"): a second, private interpretation of the set decides what the command acts on")
 	}
 	R.Min(rule, "functions reading SeqRange bounds", n, 2)
+}
+
+// parserDoesNotComputeWithSeqNums (R16.11): the parser transcribes a message set, it does not interpret it.
+func (c *Ctx) parserDoesNotComputeWithSeqNums(rule string) {
+	P, R := c.P, c.R
+	R.Explain(rule, "a set is parsed to exactly what was written: in imap/command no arithmetic or comparison has an operand of type command.SeqNum outside SeqNum's own methods (IsAsterisk / String).  The value 0 encodes `*`; any folding, merging or ordering of ranges at parse time (`1,2,3` -> `1:3`) computes with that sentinel as if it were a number - `*,1` becomes `*:1` - and changes which messages the set names.")
+	n, bad := 0, 0
+	for _, f := range c.funcsInPkg("imap/command") {
+		if rn := engine.RecvNamed(f); rn != nil && rn.Obj().Name() == "SeqNum" {
+			continue
+		}
+		for _, b := range f.Blocks {
+			for _, in := range b.Instrs {
+				bo, ok := in.(*ssa.BinOp)
+				if !ok {
+					continue
+				}
+				n++
+				if engine.IsNamed(bo.X.Type(), "imap/command", "SeqNum") || engine.IsNamed(bo.Y.Type(), "imap/command", "SeqNum") {
+					bad++
+					R.Check(false, rule, c.name(f)+"|"+bo.Op.String()+" on SeqNum", P.Pos(bo.Pos()), "", "the command parser computes with sequence-set numbers ("+bo.Op.String()+"): ranges are reshaped at parse time and `*` (encoded as 0) is treated as a number")
+				}
+			}
+		}
+	}
+	R.Check(true, rule, "imap/command|binary operations scanned", "-", fmt.Sprintf("%d binary operations, %d on SeqNum operands", n, bad), "")
 }
